@@ -18,11 +18,20 @@ pub struct TalkRunner {
     /// (request id, source) of every delivered request, responses seen so far, expected payload
     meta: Vec<(Vec<u8>, NodeAddress, usize)>,
     shut: bool,
+    /// event streams the application asked for earlier and still holds (it reads the newest one; what
+    /// arrives on an older one is read and discarded)
+    older_streams: Vec<tokio::sync::mpsc::Receiver<discv5::Event>>,
 }
 
 impl TalkRunner {
     /// Drains the handler channel; returns the canonical items and counts responses per request.
     fn drain(&mut self, out: &mut Vec<String>) -> Vec<String> {
+        self.r.settle();
+        for old in self.older_streams.iter_mut() {
+            while let Ok(e) = old.try_recv() {
+                drop(e);
+            }
+        }
         self.r.settle();
         let mut items = Vec::new();
         if let Some(inst) = self.r.insts.get_mut(&'T') {
@@ -67,6 +76,7 @@ impl Runner for TalkRunner {
     fn reset(&mut self) {
         self.r.reset();
         self.r.hold_talks = true;
+        self.older_streams.clear();
         self.meta.clear();
         self.shut = false;
     }
@@ -283,6 +293,22 @@ impl Runner for TalkRunner {
                 out.push("!OP tnop".into());
                 out.push("noop".into());
             }
+            // another component of the application asks for an event stream of its own; the first one keeps
+            // its receiver (and throws away whatever still arrives there)
+            ["tsub2"] => {
+                let rt = self.r.rt.as_ref().unwrap();
+                let inst = self.r.insts.get_mut(&'T').unwrap();
+                match rt.block_on(inst.discv5.event_stream()) {
+                    Ok(ev) => {
+                        let old = std::mem::replace(&mut inst.events, ev);
+                        self.older_streams.push(old);
+                        stats.bump("t.second-event-stream");
+                    }
+                    Err(_) => {}
+                }
+                out.push("!OP tnop".into());
+                out.push("noop".into());
+            }
             // the application sits on what it holds for a while (real time)
             ["tsleep", ms] => {
                 let ms: u64 = ms.parse().unwrap_or(0).min(600);
@@ -321,6 +347,9 @@ pub fn gen_case(rng: &mut Rng, tier: &str, _profile: &str, stats: &mut Stats) ->
         if rng.chance(1, 3) {
             ops.push(format!("tknown k{} {}", peer, if rng.chance(1, 2) { "4" } else { "4x" }));
         }
+    }
+    if rng.chance(1, 6) {
+        ops.push("tsub2".into());
     }
     let n = rng.range(6, 40);
     let mut delivered = 0u64;
